@@ -24,9 +24,10 @@ func TestMain(m *testing.M) {
 		"circuit-ids: generated families up to 64 bytes (prefix chains, trailing-NUL variants, single-byte differences at every position, structured OLT-style ids, random) compared pairwise through the real key functions and through real kernel hash maps; " +
 		"distinct_nontrivial hashes enumerated histories up to length 5 and every walk; longer enumerated histories are distinct by construction and appear in the observed *_histories_with_* counters and in nontrivial_histories_not_hashed only; " +
 		"PPPoE session states: the same id histories with sessions left in the table in each of the seven session states (exported setter; SessionTeardown with a failing/succeeding fast-path update; and through pppoe.Server's receive loop: PADR, LCP Configure-Ack, PAP rejected/accepted by a loopback RADIUS server, IPCP Configure-Ack, PADT, LCP Terminate-Request) while the id counter wraps or is placed just below an id that is in the table; " +
+		"qinq.Mapper additionally under 2-4 concurrent callers running seeded programs of 2-6 calls (Register/Unregister/UnregisterSubscriber/GetVLAN/GetSubscriber) on 2-3 subscribers and 2-3 pairs of a fresh, pre-filled mapper, every call stamped by a logical clock (non-trivial there = distinct round in which a release overlapped an accepted Register of another caller); " +
 		"non-trivial = distinct history in which a key changed holder (released/moved and obtained again), or two live objects carried the same key, or the PPPoE id counter wrapped (for the state histories: wrapped/came round and a session state was changed), or (circuit-ids) a family in which at least one pair of distinct ids was compared")
 	run.Assume("placing the PPPoE id counter (hook) stands for the creations and removals by other stations that bring it there; TestPPPoERealWrap reaches the wrap without the hook")
-	run.Assume("components are driven sequentially (the property quantifies over histories and inputs, not schedules)")
+	run.Assume("components are driven sequentially (the property quantifies over histories and inputs, not schedules), except the two VLAN-pair tables whose methods take a lock because provisioning paths share them: nexus.VLANAllocator.Allocate and every method of qinq.Mapper are also called by callers released together; for the mapper a history of overlapping calls is judged by: some order of the calls (each caller's program order and every returned-before-started pair kept) explains every returned value and the mappings read back at quiescence")
 	run.Assume("subscriber.Manager is given a correct address allocator by the harness (addresses unique among live sessions, released on request)")
 	run.Assume("FNV-1a 64-bit collisions cannot be produced by search; the hash-keyed circuit_id_map is exercised with collision-free universes and its collision detector with same-id/different-MAC probes only")
 	// floors far below what the quick tier observes: a run under them could not judge the property
@@ -42,6 +43,8 @@ func TestMain(m *testing.M) {
 	for _, st := range allStates {
 		run.Floor("pppoe_search_after_wrap_met_id_held_in_state_"+stateName(st), 300)
 	}
+	// qinq.Mapper under concurrent callers: rounds in which a release was not ordered (by the logical clock) against an accepted Register of another caller
+	run.Floor("qinq_concurrent_rounds_with_release_overlapping_register", int64(qinqConcRounds()/40))
 	run.Floor("pppoe_state_exhaustive_histories", 100000)
 	run.Floor("pppoe_histories_with_state_changes_and_wrap", 10000)
 	run.Floor("pppoe_server_state_cases", 100)
